@@ -2,6 +2,7 @@ package catalog
 
 import (
 	"encoding/json"
+	"github.com/jsightapi/jsight-api-go-library/notation"
 
 	"github.com/jsightapi/jsight-api-go-library/internal/verifrt"
 )
@@ -34,7 +35,7 @@ func verifCollection(which int, key string) verifMarshaler {
 		return m
 	case 1:
 		m := &UserTypes{}
-		m.Set(key, &UserType{})
+		m.Set(key, &UserType{Schema: NewSchema(notation.SchemaNotationAny)})
 		return m
 	case 2:
 		m := &UserRules{}
@@ -42,7 +43,7 @@ func verifCollection(which int, key string) verifMarshaler {
 		return m
 	case 3:
 		m := &Tags{}
-		m.Set(TagName("@"+key), &Tag{Name: TagName("@" + key), Title: key})
+		m.Set(TagName("@"+key), NewTag("@"+key, key))
 		return m
 	case 4:
 		m := &Interactions{}
@@ -111,7 +112,7 @@ func VerifH_MarshalShape() {
 	case 1:
 		c := &UserTypes{}
 		for _, k := range keys {
-			c.Set(k, &UserType{})
+			c.Set(k, &UserType{Schema: NewSchema(notation.SchemaNotationAny)})
 		}
 		m = c
 	case 2:
@@ -123,7 +124,7 @@ func VerifH_MarshalShape() {
 	case 3:
 		c := &Tags{}
 		for _, k := range keys {
-			c.Set(TagName("@"+k), &Tag{Name: TagName("@" + k), Title: k})
+			c.Set(TagName("@"+k), NewTag("@"+k, k))
 		}
 		m = c
 	default:
